@@ -816,7 +816,7 @@ pub fn run(scn: &ObjScenario, record: bool) -> RunResult {
     }
 
     // --- E: the stream must be invisible when it was merely awkward -------------------
-    let (rd_err, eof_stop, eof_resumed) = (ledger.get(K::read_err), ledger.get(K::early_eof), ledger.get(K::early_eof_resumed));
+    let (rd_err, eof_stop, eof_resumed) = (ledger.get(K::read_err) + ledger.get(K::read_err_after_eof), ledger.get(K::early_eof), ledger.get(K::early_eof_resumed));
     if rd_err == 0 && eof_resumed == 0 {
         if let Some(sout) = &streamed_out {
             // with a non-resuming early EOF the consumer saw exactly a prefix
@@ -999,6 +999,7 @@ pub fn shift_faults(disk: &[DiskFault], a: usize, b: usize) -> Vec<DiskFault> {
             DiskFault::LostBlock { at, len } => DiskFault::LostBlock { at: sh(at), len },
             DiskFault::DupBlock { at, len } => DiskFault::DupBlock { at: sh(at), len },
             DiskFault::GarbageBlock { at, len, seed } => DiskFault::GarbageBlock { at: sh(at), len, seed },
+            DiskFault::CopyBlock { from, to, len } => DiskFault::CopyBlock { from: sh(from), to: sh(to), len },
         })
         .collect()
 }
@@ -1032,6 +1033,9 @@ pub fn shrink_reader(r: &ReaderCfg) -> Vec<ReaderCfg> {
     }
     if r.early_eof.is_some() {
         out.push(ReaderCfg { early_eof: None, ..r.clone() });
+    }
+    if r.err_after_eof.is_some() {
+        out.push(ReaderCfg { err_after_eof: None, ..r.clone() });
     }
     out
 }
